@@ -85,6 +85,13 @@ with open(out + ".tmp", "w") as f:
 os.rename(out + ".tmp", out)
 if how == "exit":
     os._exit(0)          # the initiating process just goes away
+if how == "gwexit":
+    # the orderly way: Gateway.exit() sends GATEWAY_TERMINATE and closes the write side; then this process goes away without
+    # waiting (no group.terminate(), nobody left to kill the workers)
+    for gw in gws:
+        gw.exit()
+    time.sleep(0.2)
+    os._exit(0)
 if how == "close":
     import threading
 
